@@ -24,7 +24,7 @@ func init() {
 	register(&Driver{
 		ID:        "C18",
 		Technique: "exhaustive enumeration of generated expressions (depth <=2 over literals, placeholders, arithmetic / comparison / boolean / ternary / membership / string operators) x configurations, and of value x constraint pairs (variables and structs, zero values included), one real start each; oracle = direct evaluation of the substituted text with expr, and a fresh validator on the bound value (biconditional)",
-		Rule:      "expressions = all generated terms of depth <=2 (thorough: integer terms of depth 3) bound to int / bool / string fields x 3 configurations (one making a modulo-by-zero); validation = 14 typed values (zero values of int, string, bool included) x 12 constraints (single and joined) as validate arguments on variables, expressions feeding a validated field, and structs bound by prefix with validate struct tags; only pairs the validator library accepts as well-typed; non-trivial = expression containing a placeholder, or a pair whose verdict is 'reject'",
+		Rule:      "expressions = all generated terms of depth <=2 (thorough: integer terms of depth 3) bound to int / bool / string fields x 3 configurations (one making a modulo-by-zero); validation = 14 typed values (zero values of int, string, bool included) x 12 constraints (single and joined) as validate arguments on variables, expressions feeding a validated field, and structs bound by prefix with validate struct tags; only pairs the validator library accepts as well-typed; non-trivial = expression containing a placeholder, or a pair whose verdict is 'reject'. Families added in later rounds (look-ups inside Init, retries after an abandoned attempt, user extension points at every Order, several containers, odd names / types / values) are listed per part in this file and described in MANIFEST.json (level_claimed.text) and DESIGN §7",
 		Assumptions: []string{
 			"constraints that are ill-typed for the value make the validator library itself panic and are outside the domain",
 			"division (float results) and expressions longer than depth 2 are not covered",
